@@ -14,7 +14,7 @@ import (
 func init() {
 	register(&propDef{
 		id:      "C24",
-		explain: "Structural necessary conditions of 'range requests yield exactly the requested bytes or a proper refusal': (E10) on every acyclic path of ParseByteRange (decided in the zone abstract domain, with the post-condition 'ParseUint returns a non-negative value when its error is nil'), every success return satisfies 0 <= startPos <= endPos < contentLength; (R2) in the FS handler a ParseByteRange error leads, on every path, to the reader being closed and a 416 answer; success leads to UpdateByteRange and SetContentRange being called with the parsed positions and to status 206; a failed UpdateByteRange closes the reader; (R3) not-modified and HEAD branches give the reader back (decrement / close) before returning; (R-pool) a pooled file reader is re-armed before it goes back to its pool: every field that UpdateByteRange sets and Read/WriteTo consult is re-assigned by Close on every path; (R-enc) every assignment of Content-Encoding in the FS handler is control-dependent on the opened file's own compressed flag (fasthttp may decline to compress a file although the request negotiated it); (R-fresh) an on-disk compressed copy that already existed is opened only after its modification time was compared with the original's, unless the same path has just written it; (R-stamp) where a created file is stamped with the original's modification time (os.Chtimes), the stamp is reached only after that file was closed - a later write would reset it; (R-bound) a reader that serves the window [startPos, endPos) of a file through ReadAt never asks for more than the window holds: on every path to every ReadAt call - from the function entry, or from the head of the enclosing loop with the loop variables unconstrained, so the bound has to be re-established in every iteration - the length of the buffer handed over is at most endPos minus the offset handed over (zone domain). (R-sym) the mod times of a file and of its compressed copy are compared in one routine, and on every path on which it reports 'not stale' the difference-bound domain entails -1s < d < 1s - both directions. Not decided: the bytes served, the sub-second tolerance itself, date comparison to the second.",
+		explain: "Structural necessary conditions of 'range requests yield exactly the requested bytes or a proper refusal': (E10) on every acyclic path of ParseByteRange (decided in the zone abstract domain, with the post-condition 'ParseUint returns a non-negative value when its error is nil'), every success return satisfies 0 <= startPos <= endPos < contentLength; (R2) in the FS handler a ParseByteRange error leads, on every path, to the reader being closed and a 416 answer; success leads to UpdateByteRange and SetContentRange being called with the parsed positions and to status 206; a failed UpdateByteRange closes the reader; (R3) not-modified and HEAD branches give the reader back (decrement / close) before returning; (R-pool) a pooled file reader is re-armed before it goes back to its pool: every field that UpdateByteRange sets and Read/WriteTo consult is re-assigned by Close on every path; (R-enc) every assignment of Content-Encoding in the FS handler is control-dependent on the opened file's own compressed flag (fasthttp may decline to compress a file although the request negotiated it); (R-fresh) an on-disk compressed copy that already existed is opened only after its modification time was compared with the original's, unless the same path has just written it; (R-stamp) where a created file is stamped with the original's modification time (os.Chtimes), the stamp is reached only after that file was closed - a later write would reset it; (R-bound) a reader that serves the window [startPos, endPos) of a file through ReadAt never asks for more than the window holds: on every path to every ReadAt call - from the function entry, or from the head of the enclosing loop with the loop variables unconstrained, so the bound has to be re-established in every iteration - the length of the buffer handed over is at most endPos minus the offset handed over (zone domain). (R-clamp) in ParseByteRange only the first position's parse failure reaches an error return without the digits-only test of the token - a last position or suffix length beyond MaxInt is clamped; (R-sym) the mod times of a file and of its compressed copy are compared in one routine, and on every path on which it reports 'not stale' the difference-bound domain entails -1s < d < 1s - both directions. Not decided: the bytes served, the sub-second tolerance itself, date comparison to the second.",
 		run:     runC24,
 	})
 }
@@ -252,6 +252,7 @@ func runC24(p *Prog, r *Report) {
 	compressedCopyIsFresh(p, r)
 	stampAfterLastWrite(p, r)
 	staleCopyTestIsSymmetric(p, r)
+	overlongRangeNumbersClamp(p, r)
 }
 
 // dependsOnModTime: the value is computed from a ModTime() result.
@@ -734,4 +735,113 @@ func staleCopyTestIsSymmetric(p *Prog, r *Report) {
 	}
 	r.Check("R-sym", funcName(helper)+": 'not stale' entails that the two mod times differ by less than a second in either direction", bad == 0 && nfalse > 0, p.Pos(helper.Pos()),
 		detail+" - a file replaced by an OLDER version that keeps its mod time is served from the compressed copy of the version before")
+}
+
+// overlongRangeNumbersClamp (C24.R-clamp): a last position or suffix length that is syntactically a number but does
+// not fit an int lies beyond the end of any content and is clamped like every other one. In ParseByteRange the failure
+// of at most one ParseUint call (the first position, which is not clamped) leads to an error return without passing
+// the digits-only test of the token.
+func overlongRangeNumbersClamp(p *Prog, r *Report) {
+	fn := p.Func("ParseByteRange")
+	pu := p.Func("ParseUint")
+	if fn == nil || pu == nil {
+		r.Undecided("R-clamp", "ParseByteRange / ParseUint", "not found")
+		return
+	}
+	scansDigits := func(f *ssa.Function) bool {
+		if f == nil || !inModule(f) || f.Blocks == nil || !isBool1(f) {
+			return false
+		}
+		nine, zero := false, false
+		for _, b := range f.Blocks {
+			for _, in := range b.Instrs {
+				if bo, ok := in.(*ssa.BinOp); ok {
+					if k, isK := constInt(bo.Y); isK && k == '9' {
+						nine = true
+					} else if isK && k == '0' {
+						zero = true
+					}
+				}
+			}
+		}
+		return nine && zero
+	}
+	n, unfiltered := 0, 0
+	allCalls(fn, func(b *ssa.BasicBlock, c ssa.CallInstruction) {
+		if c.Common().StaticCallee() != pu {
+			return
+		}
+		n++
+		// the branch taken when this call failed
+		var failed *ssa.BasicBlock
+		if cv, ok := c.(*ssa.Call); ok {
+			for _, ref := range *cv.Referrers() {
+				ex, ok := ref.(*ssa.Extract)
+				if !ok || ex.Index != 1 {
+					continue
+				}
+				for _, r2 := range *ex.Referrers() {
+					bo, ok := r2.(*ssa.BinOp)
+					if !ok || !(bo.Op == token.NEQ || bo.Op == token.EQL) {
+						continue
+					}
+					for _, r3 := range *bo.Referrers() {
+						if iff, ok := r3.(*ssa.If); ok {
+							failed = iff.Block().Succs[0]
+							if bo.Op == token.EQL {
+								failed = iff.Block().Succs[1]
+							}
+						}
+					}
+				}
+			}
+		}
+		if failed == nil {
+			unfiltered++
+			return
+		}
+		if scansDigits(firstCallee(failed)) {
+			return
+		}
+		if rt, ok := failed.Instrs[0].(*ssa.Return); ok {
+			if rr := returnResults(rt); len(rr) == 3 && !isNilConst(rr[2]) {
+				unfiltered++
+				return
+			}
+		}
+		// the error return taken when this call failed: reachable from that branch without the digits-only test
+		hit, _ := reachAvoiding(fn, failed.Instrs[0], func(i ssa.Instruction) bool {
+			rt, ok := i.(*ssa.Return)
+			if !ok {
+				return false
+			}
+			rr := returnResults(rt)
+			return len(rr) == 3 && !isNilConst(rr[2])
+		}, func(i ssa.Instruction) bool {
+			cc, ok := i.(ssa.CallInstruction)
+			if !ok {
+				return false
+			}
+			if cc.Common().StaticCallee() == pu {
+				return true
+			}
+			return scansDigits(cc.Common().StaticCallee())
+		}, nil)
+		if hit != nil {
+			unfiltered++
+		}
+	})
+	r.Floor("R-clamp", "number parses in ParseByteRange", n, 3)
+	r.Check("R-clamp", "ParseByteRange: only the first position's parse failure is returned without the digits-only test of the token", unfiltered <= 1, p.Pos(fn.Pos()),
+		fmt.Sprintf("%d of %d ParseUint failures lead to an error return without a digits-only test: a last position or suffix length beyond MaxInt ('bytes=0-18446744073709551615') is refused with 416 although it only says 'up to the end'", unfiltered, n))
+}
+
+// firstCallee: the static callee of the first call instruction of b (nil when there is none).
+func firstCallee(b *ssa.BasicBlock) *ssa.Function {
+	for _, in := range b.Instrs {
+		if c, ok := in.(ssa.CallInstruction); ok {
+			return c.Common().StaticCallee()
+		}
+	}
+	return nil
 }
